@@ -17,7 +17,7 @@ PROPS = {
         "replay": [],
         "title": "Objects are insertion-ordered multimaps whose key index never goes stale",
         "level": "proof",
-        "level_text": "Unbounded proof, function by function: the per-key position buckets (Indexes) keep their representation invariant and denote exactly the documented set after insert/remove/shift_up/shift_down (every bucket size and position value); every Object operation (push*, insert*, remove*, remove_at, sort, from_vec, extend / collect, the three removal iterators incl. drop half-way) is the corresponding operation on a plain ordered list, with its documented result, and re-establishes `the index agrees with the list`; every key query answers as a linear scan would.",
+        "level_text": "Unbounded proof, function by function: the per-key position buckets (Indexes) keep their representation invariant and denote exactly the documented set after insert/remove/shift_up/shift_down (every bucket size and position value); every Object operation (push*, insert*, remove*, remove_at, sort, from_vec, extend / collect, get_or_insert_with, get_mut_or_insert_with, get_unique_mut, canonicalize_with, the three removal iterators incl. drop half-way) is the corresponding operation on a plain ordered list, with its documented result, and re-establishes `the index agrees with the list`; every key query answers as a linear scan would.",
         "level_note": "assumed: [T]::binary_search (documented contract), <&mut Vec as IntoIterator>::into_iter == iter_mut, usize Ord is <, vstd's Vec/Seq specs; hashbrown RawTable level not yet under contract",
         "design_ref": "DESIGN.md §6.2",
     },
@@ -36,7 +36,7 @@ for _pid, _title, _text in [
     PROPS[_pid] = {"units": ["parse"], "kani": [], "replay": [], "title": _title, "level": "proof", "level_text": _text, "level_note": _PARSE_NOTE, "design_ref": "DESIGN.md §6.1"}
 
 PROPS["C02"]["units"] = ["parse", "index", "object"]
-PROPS["C02"]["level_note"] = _PARSE_NOTE + " Key lookups: every lookup of Object -- get, get_entries, get_with_index, get_entries_with_index (their four macro-generated iterators taken from the macro-expanded crate, R13), indexes_of, index_of, redundant_index_of, contains_key, get_unique, get_unique_entry -- is proved to answer as a linear scan over the entries does, in document order (`positions(list, key)`), from the representation invariant wf() that every mutating operation re-establishes (unit object), under the assumed IndexMap contract; the adapter tail `.map(IntoIterator::into_iter).unwrap_or_default()` is modelled (R12); Indexes proved (unit index). Not under contract: get_mut / get_unique_mut / ValuesMut (unsafe transmute, &mut returns)."
+PROPS["C02"]["level_note"] = _PARSE_NOTE + " Key lookups: every lookup of Object -- get, get_entries, get_with_index, get_entries_with_index (their four macro-generated iterators taken from the macro-expanded crate, R13), indexes_of, index_of, redundant_index_of, contains_key, get_unique, get_unique_entry -- is proved to answer as a linear scan over the entries does, in document order (`positions(list, key)`), from the representation invariant wf() that every mutating operation re-establishes (unit object), under the assumed IndexMap contract; the adapter tail `.map(IntoIterator::into_iter).unwrap_or_default()` is modelled (R12); Indexes proved (unit index). Also proved: get_unique_mut, get_or_insert_with, get_mut_or_insert_with (values handed out mutably: only that value can change, the object stays well formed). Not under contract: get_mut / ValuesMut* (unsafe transmute), iter_mut."
 PROPS["C14"] = {
     "units": ["object"], "kani": [], "replay": [], "title": "Equality, ordering and hashing depend only on content", "level": "proof",
     "level_text": "Frame contracts: Object's PartialEq/PartialOrd/Ord/Hash results are functions of the two entry sequences only (they delegate to Vec<Entry>), for every object and every state of the key index; together with C06 (the entry sequence is determined by the list model, not by the history) this gives history independence.",
